@@ -1800,7 +1800,7 @@ def mon_hist(case_line, acts):
     # transport without a script and without keep-alive
     ca = case['actions']
     if len(ca) < 4 or ca[0] != (12, 2) or ca[1][0] != 0 or ca[1][1] or ca[2] != (12, 1) or case['cfg']['ka'] != 0 \
-            or any(c not in (1, 2, 3, 6) for c, _ in ca[3:]) or not case_line.rstrip().endswith(' 0'):
+            or any(c not in (1, 2, 3, 6, 8) for c, _ in ca[3:]) or not case_line.rstrip().endswith(' 0'):
         return out
     fl = Flow(acts)
     tx = {}
@@ -1819,6 +1819,43 @@ def mon_hist(case_line, acts):
                 return out                      # the theorem starts from an established connection
             quota0 = st.get('quota')
             i += 1
+            continue
+        if code == 8 and quota0 is not None:
+            # Mixed.v: one whole QoS 0 PUBLISH arrives while the connection is idle; the poll() that follows returns exactly
+            # that message, writes nothing, and leaves the connection idle with the window it had
+            delay, raw = req
+            pk = parse_server_packets(bytes(raw))
+            if delay != 0 or len(pk) != 1 or (pk[0][0] >> 4) != 3 or ((pk[0][0] >> 1) & 3) != 0 \
+                    or i + 1 >= len(acts) or case['actions'][i + 1][0] != 6:
+                return out                      # not a history of the theorem
+            m = _parse_inbound_publish(pk[0][0], pk[0][1])
+            if m is None or len(raw) > case['cfg']['rx']:
+                return out
+            b = acts[i + 1]
+            res = b.result or ''
+            if not res.startswith('ok msg'):
+                out.append(V('poll() at action #%d, with a whole QoS 0 PUBLISH waiting on an idle connection, returned %r'
+                             % (i + 1, res[:60])))
+                return out
+            f = dict(x.split('=', 1) for x in res.split(' ')[2:] if '=' in x)
+            want = {'t': 'x' + m['topic'].hex(), 'p': 'x' + m['payload'].hex(), 'q': '0', 'r': str(m['retain']),
+                    'props': 'x' + m['props'].hex()}
+            bad = [k for k in want if f.get(k) != want[k]]
+            if bad:
+                out.append(V('the message returned at action #%d differs from the PUBLISH that arrived in %s: %s'
+                             % (i + 1, bad, res[:100])))
+                return out
+            if tx.get(i) or tx.get(i + 1):
+                out.append(V('delivering a QoS 0 message at action #%d wrote %s to the wire'
+                             % (i + 1, [q['type'] for q in tx.get(i, []) + tx.get(i + 1, [])])))
+                return out
+            end = b.state or {}
+            if end.get('ret') != '[]' or end.get('rel') != '[]' or end.get('ctl') != '[]' or end.get('live') != '1' \
+                    or end.get('quota') != quota0:
+                out.append(V('after the QoS 0 delivery at action #%d the connection is not idle as before: ret=%s rel=%s ctl=%s live=%s quota=%s'
+                             % (i + 1, end.get('ret'), end.get('rel'), end.get('ctl'), end.get('live'), end.get('quota'))))
+                return out
+            i += 2
             continue
         if code not in (1, 2, 3) or quota0 is None:
             i += 1
